@@ -1,2 +1,118 @@
-import AlgoVerif.Common
-/-! # C15 — property theorems (none yet) -/
+import AlgoVerif.Proofs.C15Run
+import AlgoVerif.Proofs.C01Inst
+/-!
+# C15 — balanced trees stay logarithmic and report their true height
+
+`run kind cmp eqVal ops = .ok (s, outs)` says: the history `ops`, executed on two fresh tables of the
+Model of `symboltable/{bst,avl,red_black}.go`, ended in the state `s` (a pair of tables, the first one
+being the table the calls act on).  Every prefix of a history is a history, so "after `ops`" is
+"after every step of every history".
+
+* `Balanced` : the real heights of the two subtrees of every node differ by at most one;
+* `HeightOK` : every cached `avlNode.height` is the real height of its subtree;
+* `LLRB`     : black root, no red right link, no red node with a red left child, equal black height
+  on every path (`RB`, `bh` in `Proofs/C01RbColor.lean`);
+* `realHeight` : the longest root-to-leaf path, counted in nodes.
+
+The AVL theorems need no assumption on the comparator at all; the LLRB ones assume `LawfulCmp`
+because `Delete` looks the key up first and relies on finding it again on the way down.
+-/
+open AlgoVerif AlgoVerif.C01
+
+/-- AVL: balanced, and every cached height is the real one, after every history. -/
+theorem C15_avl {K V : Type} (cmp : K → K → Int) (eqVal : V → V → Bool) (ops : List (Op K V))
+    (s : State K V) (outs : List (Out K V)) (hrun : run .avl cmp eqVal ops = .ok (s, outs)) :
+    (Balanced s.1 ∧ HeightOK s.1) ∧ (Balanced s.2 ∧ HeightOK s.2) := by
+  have := runFrom_inv (avl_kindInv cmp) eqVal ops (.nil, .nil) s outs ⟨trivial, trivial⟩ hrun
+  exact ⟨this.1.balanced, this.2.balanced⟩
+
+/-- A balanced tree of height `h` holds at least `fib (h+2) - 1` keys (so `h ≤ 1.44·log2(n+2)`). -/
+theorem C15_avl_height {K V : Type} (t : Tree K V) (hb : Balanced t) :
+    fib (t.realHeight + 2) ≤ t.nodes + 1 :=
+  balanced_nodes_ge_fib hb
+
+/-- AVL, in API terms: after every history `fib (Height() + 2) ≤ Size() + 1`. -/
+theorem C15_avl_log {K V : Type} (cmp : K → K → Int) (h : LawfulCmp cmp) (eqVal : V → V → Bool)
+    (ops : List (Op K V)) (s : State K V) (outs : List (Out K V))
+    (hrun : run .avl cmp eqVal ops = .ok (s, outs)) :
+    fib (height .avl s.1 + 2) ≤ s.1.sz + 1 := by
+  have ha := (runFrom_inv (avl_kindInv cmp) eqVal ops (.nil, .nil) s outs ⟨trivial, trivial⟩ hrun).1
+  obtain ⟨s', outs', e, g, -⟩ := runFrom_ok (avl_kindOK h) h eqVal ops (.nil, .nil) ⟨inv_nil, inv_nil⟩
+  have hs : s' = s := by
+    have : Outcome.ok (s', outs') = Outcome.ok (s, outs) := by rw [← e]; exact hrun
+    simp only [Outcome.ok.injEq, Prod.mk.injEq] at this; exact this.1
+  subst hs
+  have hz := g.1.2
+  rw [sz_eq_length hz, ← nodes_eq_length]
+  exact avl_nodes_ge_fib ha
+
+/-- LLRB: a left-leaning red-black tree after every history (all five mutators). -/
+theorem C15_rb {K V : Type} (cmp : K → K → Int) (h : LawfulCmp cmp) (eqVal : V → V → Bool)
+    (ops : List (Op K V)) (s : State K V) (outs : List (Out K V))
+    (hrun : run .rb cmp eqVal ops = .ok (s, outs)) : LLRB s.1 ∧ LLRB s.2 := by
+  obtain ⟨s', outs', e, g, -⟩ := runFrom_ok (rb_kindOK h) h eqVal ops (.nil, .nil)
+    ⟨⟨inv_nil, llrb_nil⟩, ⟨inv_nil, llrb_nil⟩⟩
+  have hs : s' = s := by
+    have : Outcome.ok (s', outs') = Outcome.ok (s, outs) := by rw [← e]; exact hrun
+    simp only [Outcome.ok.injEq, Prod.mk.injEq] at this; exact this.1
+  subst hs
+  exact ⟨g.1.2, g.2.2⟩
+
+/-- A left-leaning red-black tree of height `h` with `n` keys has `2^h ≤ (n+1)^2`, i.e.
+`h ≤ 2·log2(n+1)`. -/
+theorem C15_llrb_height {K V : Type} (t : Tree K V) (ht : LLRB t) : 2 ^ t.realHeight ≤ (t.nodes + 1) ^ 2 :=
+  llrb_pow_height_le ht
+
+/-- LLRB, in API terms: after every history `2^Height() ≤ (Size() + 1)^2`. -/
+theorem C15_rb_log {K V : Type} (cmp : K → K → Int) (h : LawfulCmp cmp) (eqVal : V → V → Bool)
+    (ops : List (Op K V)) (s : State K V) (outs : List (Out K V))
+    (hrun : run .rb cmp eqVal ops = .ok (s, outs)) :
+    2 ^ height .rb s.1 ≤ (s.1.sz + 1) ^ 2 := by
+  obtain ⟨s', outs', e, g, -⟩ := runFrom_ok (rb_kindOK h) h eqVal ops (.nil, .nil)
+    ⟨⟨inv_nil, llrb_nil⟩, ⟨inv_nil, llrb_nil⟩⟩
+  have hs : s' = s := by
+    have : Outcome.ok (s', outs') = Outcome.ok (s, outs) := by rw [← e]; exact hrun
+    simp only [Outcome.ok.injEq, Prod.mk.injEq] at this; exact this.1
+  subst hs
+  rw [sz_eq_length g.1.1.2, ← nodes_eq_length]
+  exact llrb_pow_height_le g.1.2
+
+/-- `Height()` is the length of the longest root-to-leaf path, for the three trees, after every history
+(BST and LLRB recompute it; AVL returns the cached height of the root). -/
+theorem C15_height_true {K V : Type} (kind : Kind) (cmp : K → K → Int) (eqVal : V → V → Bool)
+    (ops : List (Op K V)) (s : State K V) (outs : List (Out K V))
+    (hrun : run kind cmp eqVal ops = .ok (s, outs)) :
+    height kind s.1 = s.1.realHeight := by
+  cases kind with
+  | bst => rfl
+  | rb => rfl
+  | avl =>
+    have := runFrom_inv (avl_kindInv cmp) eqVal ops (.nil, .nil) s outs ⟨trivial, trivial⟩ hrun
+    exact this.1.ht_eq
+
+/-! ### non-vacuity: the hypotheses are satisfiable on non-trivial states -/
+
+/-- D1's witness (`Put 2; Put 3; DeleteMax`) and a longer history run to completion on the AVL Model and
+reach non-trivial trees -/
+example : okAnd (run .avl cmpAsc eqInt [.put 2 2, .put 3 3, .deleteMax, .height])
+    (fun r => r.1.1.ht == 1 && r.1.1.sz == 1) = true := by decide
+
+example : okAnd (run .avl cmpAsc eqInt
+      [.put 1 1, .put 2 2, .put 3 3, .put 4 4, .put 5 5, .put 6 6, .put 7 7, .delete 4, .deleteMin, .deleteMax])
+    (fun r => r.1.1.ht == 3 && r.1.1.sz == 4) = true := by decide
+
+/-- an LLRB history with all kinds of deletes ends in a 5-key tree of height 3 -/
+example : okAnd (run .rb cmpDesc eqInt
+      [.put 1 1, .put 2 2, .put 3 3, .put 4 4, .put 5 5, .put 6 6, .put 7 7, .put 8 8, .delete 4, .deleteMin,
+        .deleteMax])
+    (fun r => r.1.1.sz == 5 && r.1.1.realHeight == 3 && !r.1.1.isRed) = true := by decide
+
+example : LawfulCmp cmpAsc := lawful_cmpAsc
+example : LawfulCmp cmpDesc := lawful_cmpDesc
+
+/-- a balanced seven-node shape and an LLRB shape satisfy the hypotheses of the two height bounds -/
+example : Balanced (Tree.node (.node .nil 1 1 1 1 false .nil) 2 2 3 2 false (.node .nil (3 : Int) (3 : Int) 1 1 false .nil)) := by
+  simp [Balanced, Tree.realHeight]
+
+example : LLRB (Tree.node (.node .nil 1 1 1 0 true .nil) (2 : Int) (2 : Int) 2 0 false .nil) := by
+  simp [LLRB]
